@@ -597,6 +597,55 @@ func main() {
 		run.Begin(i, d)
 		run.Guard("C06/panic", d, func() { longHistory(i, 4200+50*(i-n)) })
 	}
+	for j := int64(1); j <= int64(run.N(3, 12)); j++ {
+		i := n + 100 + int(j)
+		if run.Skip(i) {
+			continue
+		}
+		d := map[string]interface{}{"family": "reload-in-flight", "threshold": j}
+		run.Begin(i, d)
+		run.Guard("C06/panic", d, func() { reloadInFlight(i, j) })
+	}
+}
+
+// reloadInFlight: the threshold of the rule is edited while entries are in flight: the in-flight figure of a value is
+// the number of its live entries whatever rule objects came and went
+func reloadInFlight(idx int, thr int64) {
+	caseNo++
+	res := fmt.Sprintf("c06-reload-%d", caseNo)
+	d := map[string]interface{}{"case": idx, "threshold_before": thr, "threshold_after": thr + 1}
+	mk := func(t int64) []*hotspot.Rule {
+		return []*hotspot.Rule{{ID: "r", Resource: res, MetricType: hotspot.Concurrency, ParamIndex: 0, Threshold: t}}
+	}
+	hotspot.LoadRulesOfResource(res, mk(thr))
+	defer hotspot.ClearRulesOfResource(res)
+	var held []*base.SentinelEntry
+	enter := func() bool {
+		e, b := sentinel.Entry(res, sentinel.WithArgs("v"))
+		if b == nil {
+			held = append(held, e)
+		}
+		return b == nil
+	}
+	for k := int64(0); k < thr; k++ {
+		enter()
+	}
+	hotspot.LoadRulesOfResource(res, mk(thr+1))
+	a1, a2 := enter(), enter()
+	if int64(len(held)) != thr+1 || !a1 || a2 {
+		run.Violation("C06/admit-iff:reload-in-flight", fmt.Sprintf("threshold %d, %d entries for value \"v\" in flight, rule reloaded with threshold %d: the next two requests were admitted=%v,%v (expected true,false), %d entries live", thr, thr, thr+1, a1, a2, len(held)), d)
+	}
+	for _, e := range held {
+		e.Exit()
+	}
+	if !enter() {
+		run.Violation("C06/admit-iff:spurious-rejection:reload-in-flight", "all entries exited after a reload in mid-flight, the next request for the value was rejected", d)
+	}
+	for _, e := range held[len(held)-1:] {
+		e.Exit()
+	}
+	run.Count("reloads_in_flight", 1)
+	run.Distinct(vk.Hash("reload-in-flight", thr))
 }
 
 func longHistory(idx, others int) {
